@@ -129,9 +129,7 @@ theorem indexOf_insertAll_of_mem (l ops : List (K × V)) {k : K} (h : k ∈ l.ma
 /-- the value stored at a key after a history of inserts: the last insert of that key, else the old -/
 theorem get_insertAll (l ops : List (K × V)) (k : K) :
     get (insertAll l ops) k =
-      match (ops.reverse.find? (fun e => e.1 = k)) with
-      | some e => some e.2
-      | none => get l k := by
+      ((ops.reverse.find? (fun e => e.1 = k)).map (·.2)).or (get l k) := by
   induction ops generalizing l with
   | nil => simp [insertAll]
   | cons e r ih =>
@@ -162,6 +160,8 @@ variable {α : Type}
 
 /-- well-formed: the container's representation invariant holds -/
 def WF (m : StateModel α) : Prop := Container.Inv m.map
+
+instance (m : StateModel α) : Decidable (WF m) := inferInstanceAs (Decidable (Container.Inv m.map))
 
 /-- the ordered feature list a state model stands for -/
 def feats (m : StateModel α) : List (String × StateFeature α) := Container.abs m.map
